@@ -5,6 +5,19 @@ import json
 CORE_NOTE = "bounded: 2 gated sessions + connector, 2 mailboxes, 3 messages, behaviours of 16-24 free steps then drained; \\Recent not modelled; known deviations F13 (C01) / F14 (C02) are listed in known-findings.json and attributed through the specification's taint sets; schedules restricted to those the update gate can produce"
 CHECKS = {
 
+ "C12": dict(level="exploration",
+   text="GluonMime.tla (family structure) enumerates (MIME tree, header shape, line-ending mix, boundary class, damage class) classes with the message layout as abstract chunks and the expected BODY/BODYSTRUCTURE tree; laws RangesContiguous, HeaderTextIsAll, FieldsPartition, PartInsideParent, PathsUnique are invariants; pkg/mimegen renders the chunks to bytes; a child-process worker runs imap.NewParsedMessage, rfc822.Parse / Children / Walk / Part and rfc5322.ParseAddressList: on every input no panic / fatal error / hang (generous watchdog), ENVELOPE / BODY / BODYSTRUCTURE must be accepted by a strict IMAP list reader and every section range must lie inside parent and message; for undamaged classes the structure (types, params, sizes, line counts, nested envelopes) and the part ranges must equal the tree; plus seeded instances inside classes (garbage, nesting depth 10/100/200, comment nesting up to 6M, huge lines)",
+   note="classes exhaustive within depth <= 3 / node budget; bytes inside a class and the instances are sampled with the seed; one rendering decision pinned by an existing test is a known finding",
+   technique="TLA+ tree/layout generator + TLC enumeration of classes; real parsers in a child process; strict list reader", design="DESIGN.md section 5 C12"),
+ "C13": dict(level="model_checking",
+   text="GluonMime.tla (family fetch) enumerates (tree, shape, section path, partial class) with the expected value as chunk indexes (SectionValue, Partial; laws HeaderTextIsAll, FieldsPartition, PartialLaws); each message is APPENDed to a child-process server and every case FETCHed over the wire and compared octet for octet: BODY[] = appended bytes plus exactly one well-formed id header line, RFC822 = BODY[], RFC822.SIZE = length, HEADER+TEXT = BODY[], each BODY[n.m], HEADER.FIELDS / .NOT, six partial classes per section, literal framing checked by the raw client; sizes across the 256 KiB store block boundary",
+   note="bounded trees (depth <= 3); partial offsets seeded; a top-level message/rfc822 is excluded (RFC 3501 does not settle its numbering)",
+   technique="TLA+ section/partial enumeration + wire FETCH compared with bytes known by construction", design="DESIGN.md section 5 C13"),
+ "C15": dict(level="model_checking",
+   text="GluonSearch.tla: Eval(key, message, view) for all 38 search key kinds over six fixed mailbox contents (incl. two stale views that still hold a message expunged elsewhere, boundary dates and zones, exact sizes around the LARGER/SMALLER threshold); laws InsideView, AscendingNoDup, UidsSameMessages, NotIsComplement, OrIsUnion (De Morgan), ListIsIntersection, BadIffBeyond, LeafLaws are invariants; TLC enumerates every key tree of the bounded depth with the expected ascending result; each case is run as SEARCH and UID SEARCH on child-process servers and compared as a sequence",
+   note="mailboxes of up to 4 messages; key depth <= 2 (quick, plus a depth-3 sample) / <= 3 (thorough); gluon choices adopted: internal date = UTC date, sent date = date as written",
+   technique="TLA+ evaluator + TLC enumeration of key trees; wire SEARCH / UID SEARCH compared with TLC's sets", design="DESIGN.md section 5 C15"),
+
  "C07": dict(level="fault_enumeration",
    text="GluonCrash.tla models 16 operations (APPEND, COPY, MOVE, EXPUNGE, STORE, CREATE, DELETE, RENAME, SUBSCRIBE, UNSUBSCRIBE, MOVE/COPY out of the recovery mailbox, connector MessagesCreated / MessageUpdated / MessageDeleted, session release) as their real step lists (every store call, BEGIN, every transaction method, COMMIT) with Crash, FailStep, Recover; invariants AckedSurvives, BeforeOrAfter, AppendNeverLost, EveryListedFetchable, NoOrphans; TLC enumerates every (operation, step, kill|error) triple - the fault plan - with the allowed post-recovery states; each triple is executed in a child process with the store and the database wrapped (generated delegating wrapper for all 74 transaction methods) that kills itself or fails the call at step k; a fresh server on the same directories is compared (LIST, LSUB, UIDVALIDITY, UIDNEXT, FETCH with exact bytes, rows marked deleted, orphan files) with the allowed states; a step list that differs from the spec's is reported as spec out of date (exit 2)",
    note="kill = SIGKILL at a step boundary (not power loss; SQLite WAL); plain read transactions are not step boundaries; connector operations run while the only session watches an untouched mailbox; \\Recent not compared",
